@@ -10,6 +10,7 @@ with the real one at function level.  Every raising site is explicit (`PyM`); `I
 import PromVerif.Py.Str
 import PromVerif.Py.Err
 import PromVerif.Model.Validation
+import PromVerif.Generated.ParseCore
 
 namespace PromVerif.Model.ParseCore
 open PromVerif.Py PromVerif.Model.Validation
@@ -87,7 +88,10 @@ def replaceHelpEscaping : Str → Str := replaceEscapingWith [('\\', '\\'), ('n'
 argument). -/
 def unquoteUnescape (text : Str) : PyM (Str × Bool) :=
   let t := strip text
-  if t.isEmpty then .ok (t, false)
+  if t.isEmpty then
+    -- repaired order (T1 flag): stripped-empty text is returned; with the old order only a literally empty argument
+    -- was, and an all-whitespace one reached `text[0]`
+    (if Generated.ParseCore.unquoteStripsFirst || text.isEmpty then .ok (t, false) else .error .indexError)
   else
     match t with
     | [] => .ok (t, false)
